@@ -103,6 +103,14 @@ def foreign_namesake_docs():
                 # the integration point directly followed by tokens that look at the stack by name
                 for follow in ("<frameset>", "<body a=1>", "<html b=2>", "</body>", "</html>x", "<head>", "<frameset><frame>"):
                     out.append("%s<%s>%s%s" % (root, name, ip, follow))
+    # an HTML element open, a foreign element of the SAME name inside it, an integration point, then the HTML element's own end tag /
+    # a start tag that implies it: "pop until an X element has been popped" means an HTML X
+    for ctx, name in (("<table><tr><td>", "td"), ("<table><tr><th>", "th"), ("<table><caption>", "caption"), ("<p>", "p"), ("<div>", "div"), ("<ul><li>", "li"), ("<dl><dd>", "dd"),
+                      ("<h1>", "h2"), ("<object>", "object"), ("<select>", "select"), ("<table>", "table"), ("<span>", "span"), ("<button>", "button"), ("<table><tr>", "tr"), ("<form>", "form")):
+        for root in ("<svg>", "<math>"):
+            for ip in ("<foreignObject>", "<desc>", "<mi>", "<annotation-xml encoding=text/html>"):
+                for follow in ("</%s>x", "<%s>x", "</%s><%s>y", "x</%s>z"):
+                    out.append(ctx + root + "<" + name + ">" + ip + follow.replace("%s", name))
     return out
 
 
